@@ -67,8 +67,10 @@ Proof. exact inv_b_Pst. Qed.
 (* (static, define) in the FRESH fragment.  fresh_define L inp out vol s: the label L is new, the
    three path lists are duplicate free and pairwise disjoint, no (re)created row is BUILT (a BUILT
    row would start a propagation through its consumers), no node has a file as creator.  Both
-   issuers are attached; deps_closed (absent nodes have no edges) follows from inv_b
-   (C02_inv_implies_deps_closed).  If both requests are accepted in both orders the graphs agree
+   issuers are attached; deps_closed (absent nodes have no edges) and vol_nohash (a VOLATILE row has
+   no hash) follow from inv_b (C02_inv_implies_deps_closed, C02_inv_implies_vol_nohash).  Since
+   D32 (bae2038) a creator-less VOLATILE row that is supplied as an input stays VOLATILE; that
+   case is covered (nst), not excluded.  If both requests are accepted in both orders the graphs agree
    on every look-up.  Covers the provenance case "one step supplies p as an input, another step
    declares p static": p ends up UNCONFIRMED, attached, owned by the declarer, with the edge
    p -> L, in either order. *)
@@ -76,7 +78,7 @@ Theorem C02_declarations_commute_static_define :
   forall (s sa sb s12 s21 : st) (c1 : key) (ps : list str)
          (c2 : key) (L : str) (inp env out vol : list str) (nd : need),
     not_file c1 -> not_file c2 -> NoDup ps -> attached c1 s = true -> attached c2 s = true ->
-    fresh_define L inp out vol s -> deps_closed s ->
+    fresh_define L inp out vol s -> deps_closed s -> vol_nohash s ->
     step_op (OpDeclareStatic c1 ps) s = Ok sa ->
     step_op (OpDefineStep c2 L inp env out vol nd) sa = Ok s12 ->
     step_op (OpDefineStep c2 L inp env out vol nd) s = Ok sb ->
@@ -111,6 +113,8 @@ Proof. exact define_step_new_spec. Qed.
 
 Theorem C02_inv_implies_deps_closed : forall s, inv_b s = true -> deps_closed s.
 Proof. exact inv_b_deps_closed. Qed.
+Theorem C02_inv_implies_vol_nohash : forall s, inv_b s = true -> vol_nohash s.
+Proof. exact inv_b_vol_nohash. Qed.
 
 (* ---- 1'. where the faithful model does not commute (each witness is a reachable state with
         inv_b = true in which both issuers are RUNNING) ------------------------------------- *)
